@@ -147,10 +147,12 @@ HistSNext(h, m, t, o) ==
                        + (IF o.op = "Reset" /\ o.res = "" THEN Cardinality(Occupied(m)) ELSE 0),   \* Reset sends everybody away
    track |-> TrackNext(h, m, t, o),
    \* Reset empties the table: the hand the last move set up is void, nobody "stays put" across it (no late-joiner
-   \* tracking until the next successful move); where the button was is still a fact (lastDealer)
+   \* tracking until the next successful move)
    occAtNext |-> IF NextOK(o) THEN Occupied(t) ELSE IF o.op = "Reset" THEN {} ELSE h.occAtNext,
    posAtNext |-> IF NextOK(o) THEN <<t.dealer, t.sb, t.bb>> ELSE IF o.op = "Reset" THEN <<NULL, NULL, NULL>> ELSE h.posAtNext,
-   lastDealer |-> IF o.op \in {"Next", "MT.Apply"} THEN t.dealer ELSE h.lastDealer]
+   \* (what Reset does to the button is not stated: the manager may keep it - the code does - or forget it with the rest of
+   \* the table; either way the next move is measured from what the manager shows after the Reset)
+   lastDealer |-> IF o.op \in {"Next", "MT.Apply", "Reset"} THEN t.dealer ELSE h.lastDealer]
 
 N(name, holds) == IF holds THEN {} ELSE {name}
 FailedSeat(h, h2, m, t, o, props) ==
